@@ -300,3 +300,57 @@ func H02_Builder() {
 	_, perr := ParseBundle(&w)
 	verif.Assert(perr == nil, "built bundle is accepted by the parser")
 }
+
+// H02_Produced: bundles the library itself produces from a well-formed bundle - the fragments Bundle.Fragment returns
+// and what ReassembleFragments makes of them - obey the rule set and are accepted by the parser. The input family aims
+// at the rules a subset of the blocks can break: a clock-less bundle (zero creation time) whose bundle-age block may or
+// may not carry the replicate flag, a hop count block (replicated or not), an anonymous or named source, every
+// fragment size from "header only" to "fits".
+func H02_Produced() {
+	pb := PrimaryBlock{Version: dtnVersion, CRCType: CRC32, Destination: symEID("d", 4, false), SourceNode: symEID("s", 1, false), ReportTo: symEID("r", 1, false), Lifetime: 3600000}
+	clockless := verif.Bool("clockless")
+	var cbs []CanonicalBlock
+	flagOf := func(name string) BlockControlFlags {
+		if verif.Bool(name) {
+			return ReplicateBlock
+		}
+		return 0
+	}
+	if clockless {
+		pb.CreationTimestamp = NewCreationTimestamp(DtnTimeEpoch, symU64w("seq", false))
+		cbs = append(cbs, CanonicalBlock{BlockNumber: 3, BlockControlFlags: flagOf("agerepl"), Value: NewBundleAgeBlock(symU64w("age", false))})
+	} else {
+		pb.CreationTimestamp = NewCreationTimestamp(DtnTime(tsAlive), 1)
+	}
+	if verif.Bool("hop") {
+		cbs = append(cbs, CanonicalBlock{BlockNumber: 2, BlockControlFlags: flagOf("hoprepl"), Value: &HopCountBlock{Limit: 9, Count: verif.U8("hc")}})
+	}
+	n := 64 // large enough for limits well below the bundle size and above the (worst case) overhead estimate
+	cbs = append(cbs, CanonicalBlock{BlockNumber: 1, Value: NewPayloadBlock(verif.Bytes("pl", n))})
+	b := MustNewBundle(pb, cbs)
+	now := nowMillis()
+	verif.Assume(b.CheckValid() == nil && wellFormedRef(b, now))
+	orig := serialised(b)
+	mtu := verif.Size("mtu", len(orig)-n, len(orig))
+	fs, err := b.Fragment(mtu)
+	if err != nil {
+		verif.Reach("refused")
+		return
+	}
+	for _, f := range fs {
+		verif.Assert(wellFormedRef(f, now), "a bundle produced by fragmentation obeys the structural rules")
+		_, perr := ParseBundle(bytes.NewReader(serialised(f)))
+		verif.Assert(perr == nil, "a bundle produced by fragmentation is accepted by the parser")
+	}
+	if len(fs) > 1 {
+		verif.Reach("fragmented")
+		r, rerr := ReassembleFragments(append([]Bundle{}, fs...))
+		verif.Assert(rerr == nil, "the fragments reassemble")
+		if rerr == nil {
+			verif.Assert(wellFormedRef(r, now), "a bundle produced by reassembly obeys the structural rules")
+			_, perr := ParseBundle(bytes.NewReader(serialised(r)))
+			verif.Assert(perr == nil, "a bundle produced by reassembly is accepted by the parser")
+		}
+	}
+	verif.Reach("end")
+}
